@@ -586,6 +586,8 @@ def _num_fluents(b):
     from unified_planning.model import Fluent, InstantaneousAction
 
     em, tm, env = b.em, b.tm, b.env
+    if hasattr(b, "n"):
+        return
     b.n = Fluent("n", tm.IntType(), environment=env)
     b.c = Fluent("c", tm.IntType(), environment=env)
     _add_fluent(b, b.n, em.Int(0))
@@ -816,13 +818,13 @@ def _place_effect(ctx, b, pos, name):
     if pos == "instantaneous":
         holder, x, timing = b.a, em.ParameterExp(b.a.parameter("x")), None
     elif pos in ("durative-start", "durative-end"):
-        holder = _new_durative(b)
+        holder = _new_durative(b, "de")
         x, timing = em.ParameterExp(holder.parameter("x")), (StartTiming() if pos == "durative-start" else EndTiming())
         _add_action(b, holder)
     elif pos == "timed":
         holder, x, timing = P, em.ObjectExp(b.o1), GlobalStartTiming(5)
     elif pos == "event":
-        holder = Event("ev", _env=env, x=b.T)
+        holder = Event("eve", _env=env, x=b.T)
         holder.add_precondition(em.FluentExp(b.b))
         x, timing = em.ParameterExp(holder.parameter("x")), None
         P.add_event(holder)
@@ -860,7 +862,7 @@ def _place_effect(ctx, b, pos, name):
     elif name == "forall":
         if pos in ("activity", "base"):
             return False
-        y = Variable("z", b.T, env)
+        y = Variable("ze", b.T, env)
         add(em.FluentExp(b.q, [em.VariableExp(y)]), em.FALSE(), forall=[y])
     elif name in ("increase", "decrease", "increase-by-static-fluent"):
         _num_fluents(b)
@@ -907,6 +909,21 @@ def h_effect(ctx, cls, positions=None):
     n, _k = check_kind(ctx, b.P, f"{pos}:{name}")
     ctx.witness(f"{cls}:{pos}")
     ctx.note("case", f"{cls}: {name} effect in {pos}; {n} requirements")
+
+
+def h_cond_effect(ctx, cls):
+    """thorough tier: one condition construct and one effect construct in the same problem (interaction of the two scans)"""
+    env = ctx.fresh_env()
+    positions = [q for q in POSITIONS[cls] if q != "method-constraint"]
+    pos = positions[ctx.choice("position", len(positions))]
+    name = COND[ctx.choice("construct", len(COND))]
+    epos = EFF_POSITIONS[cls][ctx.choice("effect-position", len(EFF_POSITIONS[cls]))]
+    ename = EFFECTS[ctx.choice("effect", len(EFFECTS))]
+    b = _base(ctx, env, cls)
+    _place_condition(b, pos, lambda x: _cond_expr(b, name, x))
+    ctx.assume(_place_effect(ctx, b, epos, ename))
+    check_kind(ctx, b.P, f"{pos}:{name}+{epos}:{ename}")
+    ctx.witness(f"{cls}:{pos}+{epos}")
 
 
 # ---- types ------------------------------------------------------------------------------------------------------
@@ -1146,7 +1163,9 @@ def _corpus(which):
 def h_corpus(ctx, which, part=0, parts=1):
     try:
         probs = _corpus(which)
-    except ImportError:
+    except Exception as e:  # noqa: BLE001 -- the corpus cannot be loaded from this tree (e.g. an exported copy without the PDDL files
+        # of up_test_cases): nothing to check here; the run on /repo loads both corpora (witness counts in the evidence)
+        ctx.note("corpus-unavailable", f"{type(e).__name__}: {e}")
         ctx.assume(False)
     names = sorted(probs)[part::parts]
     bad = []
@@ -1173,13 +1192,22 @@ def shards(tier, seed):
         eng = kw.pop("engine", "direct")
         out.append(dict(name=name, fn=fn, kwargs=kw, budget=bud, per_path=30, engine=eng))
 
+    quick = tier == "quick"
     for cls in ("problem", "hierarchical", "contingent", "scheduling"):
         add(f"{cls}-cond", "h_cond", cls=cls)
         add(f"{cls}-effect", "h_effect", cls=cls)
-        add(f"{cls}-types", "h_types", cls=cls)
-        add(f"{cls}-misc", "h_misc", cls=cls)
-    # the multi-agent kind has its own (much shorter) case analysis: one shard per position so that each omission is recorded
-    for pos in POSITIONS["ma"]:
+        # hierarchical and contingent problems share Problem's scan of types / metrics / initial state: thorough only
+        if not quick or cls in ("problem", "scheduling"):
+            add(f"{cls}-types", "h_types", cls=cls)
+        if not quick or cls != "contingent":
+            add(f"{cls}-misc", "h_misc", cls=cls)
+        if not quick and cls != "scheduling":
+            add(f"{cls}-cond-x-effect", "h_cond_effect", cls=cls)
+    # the multi-agent kind has its own (much shorter) case analysis: the positions it does not inspect get a shard each so that
+    # every omission is recorded (at most 4 distinct signatures are kept per shard)
+    ma_ok = ["precondition", "effect-condition", "goal", "public-goal", "private-goal"]
+    add("ma-cond-instantaneous-and-goals", "h_cond", cls="ma", positions=ma_ok)
+    for pos in [q for q in POSITIONS["ma"] if q not in ma_ok]:
         add(f"ma-cond-{pos}", "h_cond", cls="ma", positions=[pos])
     for pos in EFF_POSITIONS["ma"]:
         add(f"ma-effect-{pos}", "h_effect", cls="ma", positions=[pos])
